@@ -14,6 +14,8 @@ HARNESSES = [
     dict(name="combine", src="props/combine.cpp", variant="plain"),
     dict(name="traps", src="props/traps.cpp", variant="plain"),
     dict(name="impls", src="props/impls.cpp", variant="plain"),
+    dict(name="touch", src="props/touch.cpp", variant="plain"),
+    dict(name="touch_asan", src="props/touch.cpp", variant="asan"),
     dict(name="traps_asan", src="props/traps.cpp", variant="asan"),
     dict(name="formats_asan", src="props/formats.cpp", variant="asan"),
 ]
@@ -192,4 +194,44 @@ CHECKS["C02"] = dict(
     assumptions=["indexed formats use consistent palettes (store(fetch(i)) == i), as every real caller's do; with an inconsistent palette even the DST operator is observable",
                  "undefined bits (padding bits of affected pixels; image alpha bits / map colour bits under a destination alpha map) are masked",
                  "each worker is a fresh process: the implementation chain is fixed at library load"],
+)
+
+CHECKS["C03"] = dict(
+    level="exploration",
+    rule=("rapidcheck scenes on small destinations (1-40 x 1-12) of any destination format incl. a1/a4/c4/g1/24 bpp with padded and "
+          "negative strides and fenced buffers: request rectangle inside/straddling/outside, zero and huge sizes, 16-bit extremes; "
+          "dest clip of 1-6 boxes; dest alpha map with arbitrary origin; source and mask clips in all four (has_client_clip, "
+          "source_clipping) combinations placed to overlap in destination space; operators biased to those that change every pixel; "
+          "entry points composite32, the 16-bit composite, and pixman_compute_composite_region. Oracle: R = request ∩ bounds ∩ dest "
+          "clip ∩ alpha-map bounds ∩ enabled source/mask clips (translated), computed by the independent region model; every bit "
+          "of the destination storage and of the alpha map outside R is unchanged (sub-byte neighbours, padding); "
+          "compute_composite_region returns TRUE iff R non-empty and exactly R in canonical form; SRC with an opaque solid sets "
+          "every pixel of R; sources unmodified. Non-trivial = R non-empty, different from the request rectangle and with an edge "
+          "strictly inside the image."),
+    jobs=[
+        dict(harness="touch", prop="composite", cases=T(25000, 400000), procs=T(6, 12)),
+        dict(harness="touch_asan", prop="composite", cases=T(8000, 120000), procs=T(2, 4)),
+    ],
+    floor=T(100000, 2000000), nt_floor=T(30000, 500000),
+    assumptions=["clips are not put on alpha-map images (the statement does not enumerate them)",
+                 "the 'every pixel of R is drawn' direction is asserted only for geometry within +-16000 (requests whose source coordinates leave the 16-bit range are dropped by design, C04)"],
+)
+
+CHECKS["C19"] = dict(
+    level="exploration",
+    rule=("(fill/blt) rapidcheck pixman_fill / pixman_blt requests: bpp in {1,4,8,16,24,32,64,128,2,12} incl. unequal blt depths, "
+          "x/width 0-130, heights 0-6, padded strides, start offsets 0-12 bytes, clean and dirty fillers; run by one worker per "
+          "PIXMAN_DISABLE value: TRUE => memory equals the independently computed image (exactly the rectangle's bits set/copied), "
+          "FALSE => nothing changed, all TRUE results identical. (fill_boxes/fill_rectangles) all destination formats, every "
+          "operator, 16-bit colours biased to {0,ffff,8000,ff00,ff80,...}, 0-8 boxes overlapping/outside/degenerate, dest clip: "
+          "result equals compositing a solid over each box (defined bits), every bit outside boxes ∩ bounds ∩ clip unchanged, "
+          "returns TRUE; ASan build included. Non-trivial = unaligned start/width with some chain returning TRUE; shortcut "
+          "operator with a box cut by the image edge or the clip."),
+    jobs=[
+        dict(harness="impls", prop="fillblt", cases=T(20000, 300000), procs=T(3, 6)),
+        dict(harness="touch", prop="fill", cases=T(20000, 300000), procs=T(3, 6)),
+        dict(harness="touch_asan", prop="fill", cases=T(6000, 100000), procs=T(2, 4)),
+    ],
+    floor=T(100000, 1500000), nt_floor=T(20000, 300000),
+    assumptions=["the reference for fill_boxes is pixman_image_composite32 with a solid image (its own correctness is C01/C03)"],
 )
